@@ -6,7 +6,8 @@
 
   * key-generation data flow of `Parameters.GenEvaluationKeys` / `genEncapsulationEvaluationKeysNew`:
     `encapsulation_confined`, `encapsulation_key_present`, `sparse_plaintext_only_under_dense`,
-    `genEvaluationKeys_panics_iff`, `accepted_no_panic` — for EVERY parameter summary;
+    `genEvaluationKeys_panics_iff`, `accepted_no_panic`, `key_levels_sufficient` (every key has the
+    level the evaluator uses it at, for all admissible input levels) — for EVERY parameter summary;
   * Galois-key inventory, helper (`dft.MatrixLiteral.GaloisElements`, `Parameters.GaloisElements`) versus
     evaluator (`NewMatrixFromLiteral` + BSGS evaluation, `Trace`, `Conjugate`, sparse repacking rotation):
     `index_maps_agree`, `bsgs_rotations_agree`, `keys_exact` (set equality), `keys_sufficient`
@@ -42,6 +43,11 @@ theorem sparse_not_mem_denseProt (l : KeyLit) : SecretKind.sparse ∉ denseProt 
 theorem sparse_not_mem_residualProt (l : KeyLit) : SecretKind.sparse ∉ residualProt l := by
   unfold residualProt; split <;> simp
 
+theorem gk_ne (x : String) : "gk" ++ x ≠ "EvkDenseToSparse" := by
+  intro h
+  have := congrArg String.toList h
+  simp [String.toList_append] at this
+
 /-- shape of the generated bundle -/
 theorem genEvaluationKeys_some {l : KeyLit} {galEls : List Nat} {ks : List KeyRec}
     (h : genEvaluationKeys l galEls = some ks) :
@@ -50,7 +56,7 @@ theorem genEvaluationKeys_some {l : KeyLit} {galEls : List Nat} {ks : List KeyRe
         k.levelQ = 0 ∧ k.levelP = 0 ∧ k.ring = .q0p0 ∧ l.ephemeral = true) ∨
       ((k.protectedBy = denseProt l ∨ k.protectedBy = residualProt l) ∧
         k.levelQ = (l.qCount : Int) - 1 ∧ k.levelP = (l.pCount : Int) - 1 ∧ k.ring = .boot ∧
-        (k.encrypts = some .sparse → k.protectedBy = denseProt l)) := by
+        (k.encrypts = some .sparse → k.protectedBy = denseProt l) ∧ k.name ≠ "EvkDenseToSparse") := by
   intro k hk
   unfold genEvaluationKeys at h
   simp only at h
@@ -84,7 +90,7 @@ theorem genEvaluationKeys_some {l : KeyLit} {galEls : List Nat} {ks : List KeyRe
             · left; simpa using he
             · right; simp
       · right; simp
-      · right; simp
+      · right; simp [gk_ne]
 
 /-- **encapsulation_confined.** In the bundle returned by `GenEvaluationKeys`, for EVERY parameter
     summary: a key that is an RLWE encryption under the low-Hamming-weight ephemeral secret is
@@ -107,7 +113,7 @@ theorem sparse_plaintext_only_under_dense (l : KeyLit) (galEls : List Nat) (ks :
       k.protectedBy = denseProt l ∧ SecretKind.sparse ∉ k.protectedBy ∧
       k.levelQ = (l.qCount : Int) - 1 ∧ k.levelP = (l.pCount : Int) - 1 := by
   intro k hk he
-  rcases genEvaluationKeys_some h k hk with ⟨_, _, he', _⟩ | ⟨_, hq, hp, _, hd⟩
+  rcases genEvaluationKeys_some h k hk with ⟨_, _, he', _⟩ | ⟨_, hq, hp, _, hd, _⟩
   · rw [he] at he'; cases he'
   · exact ⟨hd he, by rw [hd he]; exact sparse_not_mem_denseProt l, hq, hp⟩
 
@@ -140,6 +146,38 @@ theorem accepted_no_panic (l : KeyLit) (galEls : List Nat) (h : l.accepted) :
   omega
 
 example : ∃ ks, genEvaluationKeys ⟨25, 5, true, false, false⟩ [5, 25] = some ks ∧ ks.length = 5 := ⟨_, rfl, rfl⟩
+
+/-- **key_levels_sufficient.** For every level layout and every option combination, every key of the
+    generated bundle has the `LevelQ` the evaluator uses it at over ALL admissible input levels
+    (`neededLevelQ`: ring-switch keys up to the residual maximum, `rlk` from `Mod1.LevelQ`,
+    `EvkSparseToDense` and Galois keys on the full chain) and exactly the `LevelP` it must have
+    (`neededLevelP`) — no gadget product ever clamps a ciphertext to a shorter key. -/
+theorem key_levels_sufficient (s : SchedLit) (eph diff ci : Bool) (galEls : List Nat) (ks : List KeyRec)
+    (hr : 1 ≤ s.residualQ) (h : genEvaluationKeys (s.keyLit eph diff ci) galEls = some ks) :
+    ∀ k ∈ ks, k.sufficient s := by
+  intro k hk
+  unfold KeyRec.sufficient
+  rcases genEvaluationKeys_some h k hk with ⟨hn, _, _, hq, hp, _⟩ | ⟨_, hq, hp, _, _, hn⟩
+  · rw [hn, hq, hp]
+    refine ⟨by simp [neededLevelQ], ?_⟩
+    intro lp hlp
+    simp [neededLevelP] at hlp
+    omega
+  · rw [hq, hp]
+    simp only [SchedLit.keyLit]
+    constructor
+    · unfold neededLevelQ
+      have : s.mod1LevelQ + 1 ≤ s.qCount := by
+        unfold SchedLit.mod1LevelQ SchedLit.s2cLevelQ SchedLit.qCount; omega
+      have : s.residualQ ≤ s.qCount := by unfold SchedLit.qCount; omega
+      split_ifs <;> omega
+    · intro lp hlp
+      unfold neededLevelP at hlp
+      split_ifs at hlp
+      · simpa using hlp
+
+example : genEvaluationKeys ((⟨2, 3, 4, 8, false, some 4⟩ : SchedLit).keyLit true true false) [5] ≠ none :=
+  accepted_no_panic _ _ (by decide)
 
 /-! ## 2. Galois keys: helper versus evaluator -/
 
@@ -283,6 +321,7 @@ end Lattigo.Props.C18
 #print axioms Lattigo.Props.C18.encapsulation_key_present
 #print axioms Lattigo.Props.C18.genEvaluationKeys_panics_iff
 #print axioms Lattigo.Props.C18.accepted_no_panic
+#print axioms Lattigo.Props.C18.key_levels_sufficient
 #print axioms Lattigo.Props.C18.index_maps_agree
 #print axioms Lattigo.Props.C18.bsgs_rotations_agree
 #print axioms Lattigo.Props.C18.keys_exact
